@@ -10,12 +10,16 @@
 (* gap; flush and drop publish exactly the buffer.  A handle whose file    *)
 (* was removed is detached (det): it keeps working but publishes nothing.  *)
 (* A read handle is a cursor over the bytes it was opened on.              *)
+(* isdir: after the file was removed a DIRECTORY may be created at its     *)
+(* path while a (detached) write handle is still open: the handle must not *)
+(* turn it back into a file.  set_cr: setting the creation time (where     *)
+(* supported) never interferes with open handles (C19).                    *)
 (***************************************************************************)
 EXTENDS Integers, Sequences, FiniteSets, TLC
 
 NoW == [open |-> FALSE, buf |-> <<>>, pos |-> 0, app |-> FALSE, dirty |-> FALSE, det |-> FALSE]
 NoR == [open |-> FALSE, data |-> <<>>, pos |-> 0]
-InitH == [ex |-> FALSE, file |-> <<>>, w |-> NoW, r |-> NoR]
+InitH == [ex |-> FALSE, isdir |-> FALSE, file |-> <<>>, w |-> NoW, r |-> NoR]
 Exists(s) == s.ex
 
 Zeros(n) == [i \in 1..n |-> 0]
@@ -33,11 +37,18 @@ AnyErrH == {"err", "notfound"}
 
 \* o : [op, c (bytes), wh, off, n]
 Step(s, o) ==
-  CASE o.op = "open_create" -> R({"ok"}, <<>>, [s EXCEPT !.ex = TRUE, !.file = <<>>, !.w = [NoW EXCEPT !.open = TRUE]])
+  CASE o.op = "open_create" ->
+         IF s.isdir THEN R(AnyErrH, <<>>, s)
+         ELSE R({"ok"}, <<>>, [s EXCEPT !.ex = TRUE, !.file = <<>>, !.w = [NoW EXCEPT !.open = TRUE]])
+    [] o.op = "mkdir" -> R({"ok"}, <<>>, [s EXCEPT !.isdir = TRUE])
+    [] o.op = "rmdir" -> R({"ok"}, <<>>, [s EXCEPT !.isdir = FALSE])
+    [] o.op = "set_cr" -> R({"ok", "not_supported"}, <<>>, s)      \* (which of the two is decided per configuration in the trace specification)
     [] o.op = "open_append" ->
+         IF s.isdir THEN R(AnyErrH, <<>>, s) ELSE
          IF Exists(s) THEN R({"ok"}, <<>>, [s EXCEPT !.w = [NoW EXCEPT !.open = TRUE, !.buf = s.file, !.pos = Len(s.file), !.app = TRUE]])
          ELSE R({"notfound"}, <<>>, s)
     [] o.op = "open_read" ->
+         IF s.isdir THEN R(AnyErrH, <<>>, s) ELSE
          IF Exists(s) THEN R({"ok"}, <<>>, [s EXCEPT !.r = [open |-> TRUE, data |-> s.file, pos |-> 0]])
          ELSE R({"notfound"}, <<>>, s)
     [] o.op = "write" ->
@@ -59,6 +70,7 @@ Step(s, o) ==
     [] o.op = "close_r" -> R({"ok"}, <<>>, [s EXCEPT !.r = NoR])
     [] o.op = "xseek" -> R(AnyErrH \cup {"ok"}, <<>>, s)     \* extreme offsets: only "no panic" is judged
     [] o.op = "remove" ->
+         IF s.isdir THEN R(AnyErrH, <<>>, s) ELSE
          IF Exists(s) THEN R({"ok"}, <<>>, [s EXCEPT !.ex = FALSE, !.file = <<>>, !.w.det = s.w.open])
          ELSE R({"notfound"}, <<>>, s)
 
@@ -69,6 +81,9 @@ Enabled(s, o) ==
     [] o.op \in {"read", "seek_r", "close_r"} -> s.r.open
     [] o.op = "xseek" -> R(AnyErrH \cup {"ok"}, <<>>, s)     \* extreme offsets: only "no panic" is judged
     [] o.op = "remove" -> TRUE
+    [] o.op = "mkdir" -> ~s.ex /\ ~s.isdir
+    [] o.op = "rmdir" -> s.isdir
+    [] o.op = "set_cr" -> s.ex
 
 \* what a fresh reader must see (only judged while no unflushed data is pending)
 Published(s) == s.file
